@@ -142,36 +142,29 @@ theorem QInv_advance (n : Nat) (c : CS) (h : QInv n c) :
   obtain ⟨a, b, d⟩ := h.ok i hi htag
   exact ⟨⟨a, b⟩, by show c.tag i ≤ c.cur + 1; omega, d⟩
 
-/-- **C02, one call (rollback mode without sparse saving).** From a quiescent check state whose
-tags are the cells' tags, the requests the call appends pass the check and leave a quiescent
-check state at the session's new frame. -/
-theorem tick_consistent_ns (s s' : P2P) (now : Nat) (reqs reqs' : List Request) (hns : s.sparse = false)
-    (h : s.advanceRollbackFrame now reqs = .ok (s', reqs')) (c : CS) (hn : 0 < s.sync.cells.length)
-    (hq : QInv s.sync.cells.length c) (hcur : c.cur = s.sync.currentFrame)
-    (htags : 0 < s.sync.currentFrame → ∀ i, i < s.sync.cells.length → c.tag i = (rget s.sync.cells i).frame) :
-    ∃ (new : List Request) (c' : CS), reqs' = reqs ++ new ∧ ChkList s.sync.cells.length c new c' ∧
-      QInv s.sync.cells.length c' ∧ c'.cur = s'.sync.currentFrame ∧
-      (s'.sync.currentFrame = s.sync.currentFrame ∨ s'.sync.currentFrame = s.sync.currentFrame + 1) ∧
-      s'.sync.cells = s.sync.cells ∧ s'.sparse = s.sparse := by
-  obtain ⟨RB, G, hL, h0, hrb, hg, hcl, hsp, _⟩ := tick_shape_ns s s' now reqs reqs' hns h
-  generalize hnn : s.sync.cells.length = n at *
-  -- rollback part: ends in a state from which the save of the current frame re-establishes QInv
-  have hRB : ∃ c1, ChkList n c RB c1 ∧ c1.cur = s.sync.currentFrame ∧
+/-- The rollback-and-save part of a request list without sparse saving, as a pure statement about
+lists: an optional rollback block (a load of an earlier frame whose cell is tagged with it, then
+the re-simulation back to `cur`) followed by the save of `cur`, from a quiescent check state. -/
+theorem shape_consistent_ns (n : Nat) (hn : 0 < n) (c : CS) (cur : Int) (h0 : 0 ≤ cur) (hq : QInv n c)
+    (hcur : c.cur = cur) (RB : List Request)
+    (hrb : RB = [] ∨ ∃ (r : Frame) (L : List Request), RB = [.load r] ++ L ∧ 0 ≤ r ∧ r < cur ∧
+      c.tag (r.toNat % n) = r ∧ ResimShape false 0 r (cur - r).toNat L) :
+    ∃ c2, ChkList n c (RB ++ [.save cur]) c2 ∧ QInv n c2 ∧ c2.cur = cur := by
+  have hRB : ∃ c1, ChkList n c RB c1 ∧ c1.cur = cur ∧
       QInv n { c1 with tag := upd c1.tag (c1.cur.toNat % n) c1.cur, valid := fun i => i = c1.cur.toNat % n ∨ c1.valid i } := by
-    rcases hrb with he | ⟨r, L, hRBL, hr0, hlt, htag, hsh⟩
+    rcases hrb with he | ⟨r, L, hRBL, hr0, hlt, htr, hsh⟩
     · subst he
       exact ⟨c, ChkList.nil c, hcur, QInv_save n c hq⟩
     · have hidx : r.toNat % n < n := Nat.mod_lt _ hn
-      have htr : c.tag (r.toNat % n) = r := by rw [htags (by omega) _ hidx]; exact htag
       have hval : c.valid (r.toNat % n) := (hq.ok _ hidx (by rw [htr]; exact hr0)).1
       let c0 : CS := { c with cur := r }
       have hload : Chk n c (.load r) c0 := Chk.load c r hr0 (by rw [hcur]; exact hlt) htr hval
-      have hinv0 : LInvC n 0 r s.sync.currentFrame c0 := by
+      have hinv0 : LInvC n 0 r cur c0 := by
         refine ⟨rfl, hr0, ?_⟩
         intro idx hidx htg
         obtain ⟨a, b, d⟩ := hq.ok idx hidx htg
         exact ⟨by rw [← hcur]; exact b, d, fun _ => a, fun _ => a⟩
-      obtain ⟨c1, hl1, hinv1⟩ := chk_resim n hn _ 0 r s.sync.currentFrame c0 L hsh hinv0 (by omega)
+      obtain ⟨c1, hl1, hinv1⟩ := chk_resim n hn _ 0 r cur c0 L hsh hinv0 (by omega)
       refine ⟨c1, by rw [hRBL]; exact ChkList.cons c c0 c1 _ _ hload hl1, hinv1.cur, ⟨by rw [hinv1.cur]; exact h0, ?_⟩⟩
       intro i hi htg
       have htg' : 0 ≤ upd c1.tag (c1.cur.toNat % n) c1.cur i := htg
@@ -188,19 +181,37 @@ theorem tick_consistent_ns (s s' : P2P) (now : Nat) (reqs reqs' : List Request) 
         · show (upd c1.tag (c1.cur.toNat % n) c1.cur i).toNat % n = i; rw [upd_ne _ _ _ _ hie]; exact b
   obtain ⟨c1, hl1, hc1, hq2⟩ := hRB
   let c2 : CS := { c1 with tag := upd c1.tag (c1.cur.toNat % n) c1.cur, valid := fun i => i = c1.cur.toNat % n ∨ c1.valid i }
-  have hsave : Chk n c1 (.save s.sync.currentFrame) c2 := by
+  have hsave : Chk n c1 (.save cur) c2 := by
     have := Chk.save (n := n) c1 c1.cur rfl (by rw [hc1]; exact h0)
     rw [← hc1]
     exact this
+  exact ⟨c2, ChkList_append n c c1 c2 _ _ hl1 (ChkList.cons c1 c2 c2 _ _ hsave (ChkList.nil c2)), hq2, hc1⟩
+
+/-- **C02, one call (rollback mode without sparse saving).** From a quiescent check state whose
+tags are the cells' tags, the requests the call appends pass the check and leave a quiescent
+check state at the session's new frame. -/
+theorem tick_consistent_ns (s s' : P2P) (now : Nat) (reqs reqs' : List Request) (hns : s.sparse = false)
+    (h : s.advanceRollbackFrame now reqs = .ok (s', reqs')) (c : CS) (hn : 0 < s.sync.cells.length)
+    (hq : QInv s.sync.cells.length c) (hcur : c.cur = s.sync.currentFrame)
+    (htags : 0 < s.sync.currentFrame → ∀ i, i < s.sync.cells.length → c.tag i = (rget s.sync.cells i).frame) :
+    ∃ (new : List Request) (c' : CS), reqs' = reqs ++ new ∧ ChkList s.sync.cells.length c new c' ∧
+      QInv s.sync.cells.length c' ∧ c'.cur = s'.sync.currentFrame ∧
+      (s'.sync.currentFrame = s.sync.currentFrame ∨ s'.sync.currentFrame = s.sync.currentFrame + 1) ∧
+      s'.sync.cells = s.sync.cells ∧ s'.sparse = s.sparse := by
+  obtain ⟨RB, G, hL, h0, hrb, hg, hcl, hsp, _⟩ := tick_shape_ns s s' now reqs reqs' hns h
+  generalize hnn : s.sync.cells.length = n at *
+  have hrb' : RB = [] ∨ ∃ (r : Frame) (L : List Request), RB = [.load r] ++ L ∧ 0 ≤ r ∧ r < s.sync.currentFrame ∧
+      c.tag (r.toNat % n) = r ∧ ResimShape false 0 r (s.sync.currentFrame - r).toNat L := by
+    rcases hrb with he | ⟨r, L, a, b, d, e, f⟩
+    · exact Or.inl he
+    · exact Or.inr ⟨r, L, a, b, d, by rw [htags (by omega) _ (Nat.mod_lt _ hn)]; exact e, f⟩
+  obtain ⟨c2, hl2, hq2, hc2⟩ := shape_consistent_ns n hn c s.sync.currentFrame h0 hq hcur RB hrb'
   rcases hg with ⟨hG, hcs⟩ | ⟨ins, hG, hcs⟩
-  · refine ⟨RB ++ [.save s.sync.currentFrame], c2, by rw [hL, hG]; simp, ?_, hq2, by show c1.cur = _; rw [hc1, hcs],
-      Or.inl hcs, hcl, hsp⟩
-    exact ChkList_append n c c1 c2 _ _ hl1 (ChkList.cons c1 c2 c2 _ _ hsave (ChkList.nil c2))
+  · exact ⟨RB ++ [.save s.sync.currentFrame], c2, by rw [hL, hG]; simp, hl2, hq2, by rw [hc2, hcs], Or.inl hcs, hcl, hsp⟩
   · let c3 : CS := { c2 with cur := c2.cur + 1, valid := fun i => c2.valid i ∧ c2.tag i ≤ c2.cur }
-    have hadv : Chk n c2 (.advance ins) c3 := Chk.advance c2 ins (by show 0 ≤ c1.cur; rw [hc1]; exact h0)
+    have hadv : Chk n c2 (.advance ins) c3 := Chk.advance c2 ins (by rw [hc2]; exact h0)
     refine ⟨RB ++ [.save s.sync.currentFrame] ++ [.advance ins], c3, by rw [hL, hG]; simp, ?_, QInv_advance n c2 hq2,
-      by show c1.cur + 1 = _; rw [hc1, hcs], Or.inr hcs, hcl, hsp⟩
-    exact ChkList_append n c c2 c3 _ _ (ChkList_append n c c1 c2 _ _ hl1 (ChkList.cons c1 c2 c2 _ _ hsave (ChkList.nil c2)))
-      (ChkList.cons c2 c3 c3 _ _ hadv (ChkList.nil c3))
+      by show c2.cur + 1 = _; rw [hc2, hcs], Or.inr hcs, hcl, hsp⟩
+    exact ChkList_append n c c2 c3 _ _ hl2 (ChkList.cons c2 c3 c3 _ _ hadv (ChkList.nil c3))
 
 end Ggrs
